@@ -976,9 +976,10 @@ Proof.
   - reflexivity.
   - simpl. f_equal. rewrite flat_map_concat_map, flat_map_concat_map, concat_map, map_map. f_equal.
     apply map_ext_in. intros c Hc. rewrite Forall_forall in IH. rewrite (IH c Hc), map_map.
-    apply map_ext. intros [l x]. simpl. f_equal.
-    change (pkey (Map h ch)) with (h_key h).
-    destruct l as [|b l]; simpl; rewrite append_assoc; reflexivity.
+    apply map_ext. intros [l x]. cbn [fst snd]. f_equal.
+    change (join (pkey (Map h ch) :: pkey c :: l)) with (String.append (h_key h) (sdot (join (pkey c :: l)))).
+    change (pkey (Map h ch)) with (h_key h). unfold sdot.
+    rewrite !append_assoc. reflexivity.
 Qed.
 
 Lemma get_path : forall n root l x,
@@ -1001,6 +1002,8 @@ Proof.
   intros n root ek x Hwf Hroot Hin Hne. rewrite ext_keys_paths in Hin.
   apply in_map_iff in Hin. destruct Hin as ([l y] & Heq & Hin). simpl in Heq. inversion Heq; subst.
   destruct l as [|k l]; [simpl in Hne; congruence|].
-  unfold rel_key. rewrite join_cons2, after_dot_append by exact Hroot.
+  unfold rel_key.
+  change (String.append EmptyString (join (pkey root :: fst (k :: l, y)))) with (join (pkey root :: k :: l)).
+  rewrite join_cons2, after_dot_append by exact Hroot.
   eapply get_path; eauto. discriminate.
 Qed.
